@@ -48,7 +48,15 @@ var vClockOffsets = []time.Duration{-time.Hour, 0, time.Nanosecond, time.Second,
 // vCheckRA runs the C01 oracle on one interface of a parsed, accepted
 // configuration.  It returns the number of RA builds compared.
 func vCheckRA(r *vlib.Run, id, text string, ifi *config.Interface, exp *model.ExpIface, sys *model.Sys, fwd bool, now time.Time, repeats int) int {
-	vInject(ifi, sys, func() time.Time { return now })
+	return vCheckRAInjected(r, id, text, ifi, exp, sys, fwd, now, repeats, true)
+}
+
+// vCheckRAInjected is vCheckRA; with inject=false the system state has already
+// been installed (for every interface of the configuration at once).
+func vCheckRAInjected(r *vlib.Run, id, text string, ifi *config.Interface, exp *model.ExpIface, sys *model.Sys, fwd bool, now time.Time, repeats int, inject bool) int {
+	if inject {
+		vInject(ifi, sys, func() time.Time { return now })
+	}
 	before := vDump(ifi)
 	want, wantErr, dc := model.ExpectedRA(exp, sys, fwd, vEpoch, now)
 	det := func(extra map[string]any) map[string]any {
@@ -139,6 +147,31 @@ func TestVerifC01(t *testing.T) {
 		}
 		sr := vlib.NewRand(r.Seed, "c01sys", c.ID)
 		nS := r.Pick(2, 4)
+		// Several interfaces (a `names` group or several stanzas): every interface
+		// is first given its *own* system state, as the daemon does when each
+		// advertiser prepares its plugins, and only then are the RAs built.
+		if len(cfg.Interfaces) > 1 {
+			for s := 0; s < nS; s++ {
+				syss := make([]*model.Sys, len(cfg.Interfaces))
+				now := vEpoch.Add(vClockOffsets[sr.Intn(len(vClockOffsets))])
+				for i := range cfg.Interfaces {
+					syss[i] = vSys(sr)
+					syss[i].AddrsErr, syss[i].RoutesErr = false, false
+					if syss[i].MAC != nil {
+						syss[i].MAC[5] = byte(i + 1)
+					}
+					vInject(&cfg.Interfaces[i], syss[i], func() time.Time { return now })
+				}
+				for i := range cfg.Interfaces {
+					if cfg.Interfaces[i].Monitor {
+						continue
+					}
+					n := vCheckRAInjected(r, c.ID, text, &cfg.Interfaces[i], &exp.Ifaces[i], syss[i], s%2 == 0, now, 2, false)
+					r.Count("ra_builds_compared", n)
+					r.Count("multi_interface_builds", n)
+				}
+			}
+		}
 		for i := range cfg.Interfaces {
 			ifi := &cfg.Interfaces[i]
 			e := &exp.Ifaces[i]
